@@ -362,6 +362,14 @@ impl Database {
 
                 let value = cursor.value()?;
 
+                // A tombstone is not a row: it can be neither matched nor deleted again.
+                if value.len() >= crate::mvcc::RecordHeader::SIZE
+                    && crate::mvcc::RecordHeader::from_bytes(value).is_deleted()
+                {
+                    cursor.advance()?;
+                    continue;
+                }
+
                 let user_data = get_user_data(value);
                 let record = RecordView::new(user_data, &schema)?;
                 let row_values = OwnedValue::extract_row_from_record(&record, &columns)?;
